@@ -266,6 +266,8 @@ def return_func(res, inp):
             v if isinstance(v, XlError) or v is 1.0 else v[0][0]
             for v in res.ravel()
         ], dtype=object).reshape(shape).view(Array)
+    elif not shape and isinstance(res.item(), np.ndarray):
+        return res.item().view(Array)  # Unit matrix of a single dimension.
     return res
 
 
